@@ -238,7 +238,13 @@ type modelCtx struct {
 	budget  int
 }
 
+func (m *modelCtx) values(terms []string) ([]string, error) {
+	m.flushDecls()
+	return m.s.getValues(terms)
+}
+
 func (m *modelCtx) val1(term string) (string, error) {
+	m.flushDecls()
 	vs, err := m.s.getValues([]string{term})
 	if err != nil {
 		return "", err
@@ -294,7 +300,7 @@ func (m *modelCtx) goExpr(v Val, t types.Type, depth int) (string, error) {
 			for i := int64(0); i < n; i++ {
 				terms = append(terms, app("sbyte", v.(Scalar).T, num(i)))
 			}
-			bs, err := m.s.getValues(terms)
+			bs, err := m.values(terms)
 			if err != nil {
 				return "", err
 			}
@@ -307,7 +313,7 @@ func (m *modelCtx) goExpr(v Val, t types.Type, depth int) (string, error) {
 		}
 	case *types.Slice:
 		s := v.(*SliceV)
-		vs, err := m.s.getValues([]string{s.Arr, s.Off, s.Len, s.Cap})
+		vs, err := m.values([]string{s.Arr, s.Off, s.Len, s.Cap})
 		if err != nil {
 			return "", err
 		}
@@ -335,7 +341,7 @@ func (m *modelCtx) goExpr(v Val, t types.Type, depth int) (string, error) {
 				if k > 512 {
 					k = 512
 				}
-				part, err := m.s.getValues(terms[:k])
+				part, err := m.values(terms[:k])
 				if err != nil {
 					return "", err
 				}
@@ -538,6 +544,9 @@ func buildReplayTest(eng *Engine, f *FuncVC, o *Oblig, timeoutMs int) (string, m
 				small = append(small, le(app("slen", ts[j]), "256"))
 			}
 		}
+	}
+	for _, lt := range f.vc.lenTerms {
+		small = append(small, le(lt, "4096"))
 	}
 	var s *session
 	var status string
